@@ -144,3 +144,7 @@ mod tests {
         Ok(())
     }
 }
+
+#[cfg(kani)]
+#[path = "/verif/harness/vcf/reader_record.rs"]
+mod verif_kani;
